@@ -27,4 +27,29 @@ PROPS = {
         status="full for the format logic (parser inverts the specification serialiser for all well-formed indexes); htslib's writer and gzip are exercised only differentially",
         assumptions=["htslib writes what the CSI/tabix specifications say (checked differentially)", "gzip decoding (Python gzip) is outside the model"],
     ),
+    "C10": dict(
+        units=["GenDtype"],
+        props_files=["Props/C10.v"],
+        driver="c10",
+        rule="(a) boundary-heavy and random (lo,hi) for min_int_dtype; (b) VcfZarrSchema.generate on fake stores with "
+        "generated summaries (all Type x Number, int8/16/32 boundary bounds, LAA, GT) vs Model.Schema.generate; (c) generated "
+        "VCFs end to end: generated schema vs every value in the intermediate store, JSON round trip, edited schemas "
+        "(dropped subsets, widened dtypes, compressor/chunk edits) honoured and value-preserving. distinct = distinct case "
+        "document; non-trivial = lo<=hi / at least one INFO or FORMAT field / a non-empty edit",
+        status="full for dtype selection, cast and shape logic (theorems); schema JSON round trip and 'user schema honoured' are "
+        "checked on the implementation only (differential), not yet stated as theorems",
+        assumptions=["summaries bound the stored values (C08 summary_bounds)", "numpy astype between integer widths wraps (two's complement)"],
+    ),
+    "C13": dict(
+        units=["GenOverlap"],
+        props_files=["Props/C13.v"],
+        driver="c13",
+        rule="(a) generated partition interval sets (overlap / touch / nest / interleave / identical / disjoint chains, shuffled) "
+        "through the real sort + check_overlapping_partitions vs Model.Overlap and the translated check; (b) file sets cut from "
+        "generated records in every order, header perturbations, duplicate paths, every reserved array name as INFO/FORMAT key, "
+        "undeclared filters, through vcf2zarr.convert. distinct = distinct case document; non-trivial = more than one partition / file",
+        status="full (overlap check complete as an iff over the translated source; duplicate path, header, reserved names, filters on the model)",
+        assumptions=["the scanner sets region.start to the first POS and finalise sets region.end to the last POS of each partition (checked end to end)",
+                     "zarr refuses to create an array that already exists (the 'length' clash)"],
+    ),
 }
